@@ -95,11 +95,16 @@ def random_calls(r, cfg, length):
                 nreg += 1
                 reg = nreg
             off = -1
+            width = r.choice([0, 1, 7, 8, 9, 16, 17, 24, 32, 33, 40, 64, 65])
             if r.random() < 0.4:
                 off = r.randrange(0, (1 << cfg["aw"]) * ratio, ratio if r.random() < 0.85 else 1)
+                if r.random() < 0.4:
+                    # near the top of the address space: the rounded (power-of-two) size decides whether it fits
+                    words = max(1, -(-width // cfg["dw"]))
+                    off = max(0, ((1 << cfg["aw"]) - words + r.choice([-2, -1, 0, 0, 1])) * ratio)
             bad = r.choice(["none"] * 14 + ["not_register", "name_empty", "name_none", "name_int", "offset_neg", "offset_str"])
             out.append({"call": "add", "reg": reg, "name": "s:" + r.choice(["a", "b", "c", "ctrl", "0", "x", "y", "z"]),
-                        "offset": off, "width": r.choice([0, 1, 7, 8, 9, 16, 17, 24, 32, 33, 40, 64, 65]), "bad": bad})
+                        "offset": off, "width": width, "bad": bad})
         elif x < 0.70 and depth < 3:
             bad = r.choice(["none"] * 8 + ["cluster_empty", "cluster_int", "index_neg", "index_str"])
             part = r.choice(["s:a", "s:b", "s:grp", "i:0", "i:1", "i:7"])
